@@ -37,6 +37,8 @@ TARGETS = {
     'outputbuffer.py': (None, ['C15', 'C01', 'C08']),
     'auditconf.py': (None, ['C18', 'C15']),
 }
+OPS = set()
+STRS = []
 CMP = {ast.Lt: ast.LtE, ast.LtE: ast.Lt, ast.Gt: ast.GtE, ast.GtE: ast.Gt, ast.Eq: ast.NotEq, ast.NotEq: ast.Eq, ast.In: ast.NotIn, ast.NotIn: ast.In, ast.Is: ast.IsNot, ast.IsNot: ast.Is}
 
 
@@ -64,6 +66,16 @@ def sites(fn):
             out.append(('arith', n))
         elif isinstance(n, ast.Subscript) and isinstance(n.slice, ast.Constant) and isinstance(n.slice.value, int) and 0 <= n.slice.value < 4:
             out.append(('index', n))
+        elif isinstance(n, (ast.List, ast.Tuple, ast.Set)) and isinstance(getattr(n, 'ctx', ast.Load()), ast.Load) and len(n.elts) >= 2 and all(isinstance(e, ast.Constant) for e in n.elts):
+            out.append(('list-drop-last', n)); out.append(('list-drop-first', n))
+        elif isinstance(n, ast.Call) and len(n.args) >= 2 and not n.keywords and all(isinstance(a, ast.Name) for a in n.args[:2]) and n.args[0].id != n.args[1].id:
+            out.append(('arg-swap', n))
+    if 'gen2' in OPS:
+        strs = sorted(set(c.value for c in ast.walk(fn) if isinstance(c, ast.Constant) and isinstance(c.value, str) and 0 < len(c.value) < 24 and ' ' not in c.value))
+        for n in ast.walk(fn):
+            if isinstance(n, ast.Compare) and len(n.comparators) == 1 and isinstance(n.comparators[0], ast.Constant) and isinstance(n.comparators[0].value, str) and len(strs) >= 2:
+                out.append(('str-other', n))
+        out = [(k, n) for k, n in out if k in ('list-drop-last', 'list-drop-first', 'arg-swap', 'str-other', 'ret-none', 'brk')]
     return out
 
 
@@ -93,6 +105,17 @@ def apply(kind, n):
         n.op = ast.Sub() if isinstance(n.op, ast.Add) else ast.Add()
     elif kind == 'index':
         n.slice = ast.Constant(n.slice.value + 1)
+    elif kind == 'list-drop-last':
+        n.elts = n.elts[:-1]
+    elif kind == 'list-drop-first':
+        n.elts = n.elts[1:]
+    elif kind == 'arg-swap':
+        n.args[0], n.args[1] = n.args[1], n.args[0]
+    elif kind == 'str-other':
+        cur = n.comparators[0].value
+        others = [x for x in STRS if x != cur]
+        if others:
+            n.comparators[0] = ast.Constant(others[len(cur) % len(others)])
     return None
 
 
@@ -142,6 +165,7 @@ def generate(outdir, limit, seed):
         tree = ast.parse(text)
         fn = [n for n in ast.walk(tree) if isinstance(n, ast.FunctionDef) and n.name == fnname and n.lineno == lineno][0]
         kind2, node = sites(fn)[si]
+        STRS[:] = sorted(set(c.value for c in ast.walk(fn) if isinstance(c, ast.Constant) and isinstance(c.value, str) and 0 < len(c.value) < 24 and ' ' not in c.value))
         before = ast.unparse(node)[:120]
         line = getattr(node, 'lineno', lineno)
         mode = apply(kind2, node)
@@ -242,9 +266,58 @@ if __name__ == '__main__':
     if cmd == 'generate':
         lim = int(sys.argv[sys.argv.index('--limit') + 1]) if '--limit' in sys.argv else 200
         seed = int(sys.argv[sys.argv.index('--seed') + 1]) if '--seed' in sys.argv else 1
+        if '--gen2' in sys.argv:
+            OPS.add('gen2')
         generate(outdir, lim, seed)
     elif cmd == 'run':
         jobs = int(sys.argv[sys.argv.index('--jobs') + 1]) if '--jobs' in sys.argv else 4
         run(outdir, jobs)
     elif cmd == 'report':
         report(outdir)
+
+
+def export(outdir, dest, triage_path=None):
+    """write one JSON file with every mutant (as a unified diff against the ast-normalised source), its result and the triage note"""
+    import difflib
+    triage = json.load(open(triage_path)) if triage_path and os.path.exists(triage_path) else {}
+    rows = []
+    for x in sorted(os.listdir(outdir)):
+        p = os.path.join(outdir, x, 'meta.json')
+        if not os.path.exists(p):
+            continue
+        m = json.load(open(p))
+        if 'result' not in m:
+            continue
+        a = ast.unparse(ast.parse(open(os.path.join(SRC, m['file'])).read())).splitlines()
+        b = open(os.path.join(outdir, x, m['file'])).read().splitlines()
+        diff = [l for l in difflib.unified_diff(a, b, lineterm='', n=1) if not l.startswith(('---', '+++'))]
+        r = m['result']
+        if r.get('killed_by') != 'tests' and 'tests_pass' not in r:
+            tree = tempfile.mkdtemp(prefix='mutt_')
+            try:
+                sh('rsync -a --exclude .git /repo/ %s/' % tree)
+                shutil.copy(os.path.join(outdir, x, m['file']), os.path.join(tree, 'src', 'ssh_audit', m['file']))
+                rc, out = sh('/venv/bin/python -m pytest -q -p no:cacheprovider -x', cwd=tree, timeout=600, env=dict(os.environ, PYTHONPATH=os.path.join(tree, 'src')))
+                r['tests_pass'] = (rc == 0)
+            finally:
+                shutil.rmtree(tree, ignore_errors=True)
+            json.dump(m, open(p, 'w'), indent=1)
+        key = '%s:%s:%s:%s' % (m['file'], m['function'], m['operator'], m['original'][:60])
+        rows.append({'id': x, 'file': m['file'], 'function': m['function'], 'operator': m['operator'], 'diff': diff[:12],
+                     'killed_by': r.get('killed_by'), 'tests_pass': (False if r.get('killed_by') == 'tests' else r.get('tests_pass')),
+                     'undecided': r.get('undecided', []), 'checks_tried': [t[0] for t in r.get('tried', [])], 'triage': triage.get(x) or triage.get(key)})
+    json.dump(rows, open(dest, 'w'), indent=1)
+    n = len(rows)
+    t = sum(1 for r in rows if r['tests_pass'] is False)
+    live = [r for r in rows if r['tests_pass'] is not False]
+    k = sum(1 for r in live if r['killed_by'] not in (None, 'tests'))
+    print('mutants %d; killed by the repository tests %d; pass the tests %d, of which killed by a check %d, survived %d' % (n, t, len(live), k, len(live) - k))
+    by = {}
+    for r in live:
+        if r['killed_by']:
+            by[r['killed_by']] = by.get(r['killed_by'], 0) + 1
+    print(sorted(by.items()))
+
+
+if __name__ == '__main__' and sys.argv[1] == 'export':
+    export(sys.argv[2], sys.argv[3], sys.argv[4] if len(sys.argv) > 4 else None)
